@@ -439,26 +439,32 @@ float64_t igris_atof64(const char *nptr, char **endptr)
 
     if (*nptr == 'E' || *nptr == 'e')
     {
+        const char *eptr = nptr + 1;
         int e_sign = 1;
         int e_val = 0;
 
-        nptr++;
-        if (*nptr == '+')
+        if (*eptr == '+')
         {
-            nptr++;
+            eptr++;
         }
-        else if (*nptr == '-')
+        else if (*eptr == '-')
         {
-            nptr++;
+            eptr++;
             e_sign = -1;
         }
 
-        while ((*nptr >= '0' && *nptr <= '9'))
+        // an exponent has at least one digit, otherwise the 'e' is not part
+        // of the number
+        if (*eptr >= '0' && *eptr <= '9')
         {
-            e_val = e_val * 10 + (*nptr - '0');
-            nptr++;
+            while ((*eptr >= '0' && *eptr <= '9'))
+            {
+                e_val = e_val * 10 + (*eptr - '0');
+                eptr++;
+            }
+            d += e_val * e_sign;
+            nptr = eptr;
         }
-        d += e_val * e_sign;
     }
 
     while (d > 0)
